@@ -727,6 +727,8 @@ impl Reporter for Rep {
     }
 }
 
+static SECOND_PASS: std::sync::atomic::AtomicBool = std::sync::atomic::AtomicBool::new(false);
+
 enum CMsg {
     Phase(&'static str),
     Done,
@@ -776,9 +778,21 @@ fn start_collector() -> Collector {
                 return;
             }
             let name = match p {
-                verif::Point::BeforeReceiver(_) => "rx",
+                verif::Point::BeforeReceiver(_) => {
+                    SECOND_PASS.store(false, std::sync::atomic::Ordering::SeqCst);
+                    "rx"
+                }
+                // the second pass drains each retained receiver in one step
+                verif::Point::ReceiverEmpty if SECOND_PASS.load(std::sync::atomic::Ordering::SeqCst) => return,
                 verif::Point::ReceiverEmpty => "empty",
-                verif::Point::BeforeReport(_) => "report",
+                verif::Point::SecondPass(_) => {
+                    SECOND_PASS.store(true, std::sync::atomic::Ordering::SeqCst);
+                    "rx2"
+                }
+                verif::Point::BeforeReport(_) => {
+                    SECOND_PASS.store(false, std::sync::atomic::Ordering::SeqCst);
+                    "report"
+                }
                 _ => return,
             };
             let _ = msg_tx.lock().unwrap().send(CMsg::Phase(name));
